@@ -9,20 +9,26 @@
 (* quantifier).                                                             *)
 EXTENDS TopSimStep
 
-VARIABLES S, run
-vars == <<cfg, S, run>>
+VARIABLES S, run, hlog    \* hlog: history of what the monitor logged
+vars == <<cfg, S, run, hlog>>
 
 CONSTANT Configs            \* the configuration family of this instance
 
 Init == /\ cfg \in Configs
         /\ S = StartState
         /\ run = "running"
+        /\ hlog = <<>>
+
+TagEv(seq, a) == [i \in 1..Len(seq) |-> [a |-> a, t |-> seq[i].t, o |-> seq[i].o, r |-> seq[i].r, e |-> seq[i].e]]
+PendingTagged(T) == TagEv(T.ev.tel, "instrument") \o TagEv(T.ev.sch, "scheduler") \o TagEv(T.ev.buf, "buffer")
+HlogNext == hlog' = IF S'.mon.logN # S.mon.logN THEN hlog \o PendingTagged(S) ELSE hlog
 
 Resume(kind) ==
     /\ run = "running"
     /\ \E i \in Cand(S) :
          /\ S.queue[i].pid[1] = kind
          /\ S' \in Succs(S, i)
+    /\ HlogNext
     /\ UNCHANGED <<cfg, run>>
 
 (* the `until` event of env.run(now + 1): the caller's loop tests           *)
@@ -34,13 +40,14 @@ StopStep ==
           THEN S' = Collate(P) /\ run' = "returned"
           ELSE S' = [P EXCEPT !.queue = QInsert(@, [t |-> P.now + K, p |-> URGENT, pid |-> StopPid])]
                /\ run' = run
+    /\ HlogNext
     /\ UNCHANGED cfg
 
 Surface ==
     /\ run = "running" /\ S.queue # <<>> /\ QHead(S).pid[1] = "CRASH"
     /\ S' = [Pop(S, 1) EXCEPT !.crashed = QHead(S).pid[2]]
     /\ run' = "crashed"
-    /\ UNCHANGED cfg
+    /\ UNCHANGED <<cfg, hlog>>
 
 Next ==
     \/ Resume("Mon") \/ Resume("Tel") \/ Resume("Clu") \/ Resume("Sch") \/ Resume("Buf")
